@@ -1,15 +1,60 @@
 (* C05 - DER decoding is canonical: re-encoding an accepted value reproduces the input.
    Statements only; every proof is `exact <lemma>`.
 
-   STATUS: partial. Proved for all contents: the typed leaves - all ten integer
-   types and BOOLEAN re-encode to exactly the accepted content; Integer,
-   Unsigned, OID and BIT STRING keep the accepted content verbatim; DER
-   accepts only the shortest length form (C13_reader_table), only minimal
-   identifiers (C12_decoder_canonical), only definite lengths and only
-   primitive strings (C02_form_rules, octstr model). NOT proved: the
-   composition over schemas; decided by c05.leaf and c05.variants. *)
+   Proved for all inputs:
+     - structure: in DER a string of the grammar is a function of its tree
+       (C05_der_encoding_unique), so two octet strings that the DER reader maps
+       to equal trees are equal (C05_der_reader_injective) and re-encoding the
+       tree that was read reproduces the input (C05_der_reencode_identity);
+     - typed fields: a typed read that succeeds (any window-isolated leaf
+       reader that keeps the limit/data lockstep) consumed exactly one
+       well-formed primitive value and delivers the leaf's decode of its
+       content (C05_typed_field_sound); instance: re-encoding the value of an
+       INTEGER field read in DER gives exactly the octets consumed
+       (C05_integer_field_canonical);
+     - leaves: all ten integer types and BOOLEAN re-encode to the accepted
+       content; Integer, Unsigned, OID, BIT STRING keep it verbatim.
+   PARTIAL: as for C04, no single theorem over a schema datatype; restricted
+   strings and captured values by streams (c05.leaf, c05.lengths, records). *)
 Require Import BV.Model.Base BV.Model.SrcB BV.Model.Twos BV.Model.Int BV.Model.BitStr BV.Model.Oid.
-Require Import BV.Proofs.IntP BV.Proofs.IntEncP BV.Proofs.BitStrP BV.Proofs.OidP.
+Require Import BV.Model.Length BV.Model.Tag BV.Model.Content BV.Model.Encode.
+Require Import BV.Proofs.SrcBP BV.Proofs.IntP BV.Proofs.IntEncP BV.Proofs.BitStrP BV.Proofs.OidP BV.Proofs.ContentP BV.Proofs.WinP
+               BV.Proofs.TotalP BV.Proofs.DeltaP BV.Proofs.GrammarP BV.Proofs.EncGrammarP BV.Proofs.TypedP.
+
+Theorem C05_der_encoding_unique :
+  (forall t d, GrammarP.enc Der t d -> forall d', GrammarP.enc Der t d' -> d = d') /\
+  (forall ts ds, encs Der ts ds -> forall ds', encs Der ts ds' -> ds = ds').
+Proof. exact der_encoding_unique. Qed.
+
+Theorem C05_der_reader_injective : forall d1 d2 ts f1 f2,
+  octets_ok d1 = true -> octets_ok d2 = true -> (length d1 < f1)%nat -> (length d2 < f2)%nat ->
+  fst (decode_src Der (read_all f1) (pure_src d1 None)) = Ok ts ->
+  fst (decode_src Der (read_all f2) (pure_src d2 None)) = Ok ts -> d1 = d2.
+Proof. exact der_reader_injective. Qed.
+
+Theorem C05_der_reencode_identity : forall e d0 d f,
+  structural e -> octets_ok d0 = true -> (length d0 < f)%nat ->
+  fst (decode_src Der (read_all f) (pure_src d0 None)) = Ok (tlvs_of e) ->
+  enc_write Der e = Ok d -> d = d0.
+Proof. exact der_reencode_is_identity. Qed.
+
+Theorem C05_typed_field_sound : forall T (op : mode -> M T) cc s v c' s',
+  Win (op (cmd cc)) -> (forall z, Safe (St true z) (op (cmd cc)) (fun _ => St true z)) ->
+  nf s -> octets_ok (rem s) = true ->
+  process_next_value cc None (prim_closure op) s = (Ok (Some v, c'), s') ->
+  c' = cc /\ exists t lw c,
+    legal_tag t /\ tag_eqb t END_OF_VALUE = false /\ lenoct (cmd cc) (len c) lw /\
+    rem s = (tag_write false t ++ lw ++ c) ++ rem s' /\
+    consumed s s' (len (tag_write false t ++ lw ++ c)) /\
+    prim_decode (op (cmd cc)) c = Ok v.
+Proof. exact @typed_field_sound. Qed.
+
+Theorem C05_integer_field_canonical : forall ty cc s v c' s', ty < 10 -> cmd cc = Der ->
+  nf s -> octets_ok (rem s) = true ->
+  process_next_value cc None (prim_closure (fun _ => int_accessor ty)) s = (Ok (Some v, c'), s') ->
+  exists t d, tlv_write t false (enc_int ty v) = Ok d /\ rem s = d ++ rem s'.
+Proof. exact int_field_der_canonical. Qed.
+
 
 Theorem C05_integer_canonical : forall ty c v, ty < 10 -> octets_ok c = true ->
   prim_decode (int_accessor ty) c = Ok v -> enc_int ty v = c.
@@ -29,6 +74,11 @@ Theorem C05_oid_verbatim : forall c, octets_ok c = true ->
   prim_decode oid_from_prim c = if oid_ok c then Ok c else CErr.
 Proof. exact oid_from_prim_spec. Qed.
 
+Print Assumptions C05_der_encoding_unique.
+Print Assumptions C05_der_reader_injective.
+Print Assumptions C05_der_reencode_identity.
+Print Assumptions C05_typed_field_sound.
+Print Assumptions C05_integer_field_canonical.
 Print Assumptions C05_integer_canonical.
 Print Assumptions C05_boolean_canonical.
 Print Assumptions C05_bitstring_canonical.
